@@ -289,6 +289,52 @@ def tie_window_postconditions(ctx, inst, facts):
                "effective lower bounds on q next to MIN_EXPONENT_ROUND_TO_EVEN=%d: %s; needs <= %d" % (cmin, los, need_lo))
 
 
+def slow_postconditions(ctx, inst, facts):
+    """C07: slow::<F> decides through the big-integer comparison.  An exit that has not passed through positive_digit_comp /
+    negative_digit_comp may only return a literal zero or infinity that the scientific exponent of its path implies:
+    value < 10^(sci+1) <= 2^(-bias-p) (half the smallest subnormal), resp. value >= 10^sci >= 2^(bias+1)."""
+    from fractions import Fraction
+    from ..consts import ieee
+    fty = None
+    for t in inst.get("targs", []):
+        if t.get("k") == "float":
+            fty = "f%d" % t["bits"]
+    if fty is None:
+        return
+    P, w, bias, p, bits = ieee(facts, fty)
+    inf = facts.float_const(fty, "INFINITE_POWER")
+    ctx.record = True
+    n_early = 0
+    ok_all, why = True, ""
+    for st, rv in ctx.exit_states:
+        if ("visited", "digit_comp") in st.ghost:
+            continue
+        n_early += 1
+        ok = False
+        if isinstance(rv, Fields):
+            m, e = rv.d.get((("f", 0),)), rv.d.get((("f", 1),))
+            se = st.ghost.get(("result", "scientific_exponent"))
+            if isinstance(m, int) and isinstance(e, int) and m in G.base and e in G.base and isinstance(se, int) and se in G.base:
+                M, E, S = st.get_iv(m), st.get_iv(e), st.get_iv(se)
+                if M == (0, 0) and E == (0, 0) and S[1] < 4000:
+                    ok = Fraction(10) ** (S[1] + 1) <= Fraction(1, 2 ** (bias + p)) if S[1] + 1 < 0 else False
+                    why = "early zero with scientific exponent in %s; needs 10^(hi+1) <= 2^-%d" % (S, bias + p)
+                elif M == (0, 0) and E == (inf, inf) and S[0] > -4000:
+                    ok = Fraction(10) ** S[0] >= Fraction(2) ** (bias + 1) if S[0] > 0 else False
+                    why = "early infinity with scientific exponent in %s; needs 10^lo >= 2^%d" % (S, bias + 1)
+                else:
+                    why = "an exit returns mant %s exp %s without the big-integer comparison" % (M, E)
+            else:
+                why = "an exit without the big-integer comparison whose result or scientific exponent is not tracked"
+        else:
+            why = "an exit without the big-integer comparison"
+        if not ok:
+            ok_all = False
+            break
+    ctx.oblige("post:slow decides only through the big-integer comparison (or an early zero/infinity implied by the scientific exponent)",
+               ok_all and bool(ctx.exit_states), inst, inst.get("span"), why or "%d exits, %d early" % (len(ctx.exit_states), n_early))
+
+
 def saturation_postconditions(ctx, inst, positive):
     """C19: parse_exponent returns the saturation constant only when the accumulator was about to overflow"""
     lim = ((1 << 31) - 1 - 9) // 10 + 1        # smallest accumulator value for which value*10 + digit can exceed i32::MAX
